@@ -142,22 +142,22 @@ CLAIMS["C16"] = (
 ADDENDA = {
     "C15": " Also: in newFormatter the letters d x X o b lead to the integer formatters and e E f F g G to the float ones (R15.6); an integer derived from a regexp/strings byte offset by arithmetic alone is never made into a value — a taint analysis with function summaries (R15.7).",
     "C07": " Also: a signed division of two payload ints is reached only along paths that have set math.MinInt64 / -1 apart (R07.10).",
-    "C06": " Also: in pkg/scan a byte compared with a letter is compared with the other case of that letter too (R06.8).",
-    "C04": " Also: the index of a range over a sub-slice s[a:] is never used to index s itself (R04.14).",
+    "C06": " Also: in pkg/scan a byte compared with a letter is compared with the other case of that letter too (R06.8). R06.5 follows an entry point that only delegates to the worker behind it.",
+    "C04": " Also: the index of a range over a sub-slice s[a:] is never used to index s itself (R04.14). Further: every path on which head drops a record sends downstream-done or has seen it sent (R04.15); a slice sent on a channel is not re-sliced by the sender afterwards (R04.16).",
     "C01": " Also: the CSV writer sends a field's text out whole only on the edge where fieldNeedsQuotes is false, and otherwise in pieces cut at the next special character (R01.3f). Further: a separator that is not a constant is looked for in the accumulated line and never in the piece ReadString has just returned (R01.3g); a buffer kept in a struct field and re-sliced to a computed length is handed on only after counting loops have assigned every cell below that length (R01.3h); the batch getters of the CSV-lite and TSV readers all test for the byte-order mark (R01.9).",
     "C03": " Also: no in-place alteration reaches a value that is neither fresh nor the function's own parameter, with no frozen exception left for the indexed-assignment and json-parse sites (the analysis sees that a value is known to be a collection, or a merge of fresh values and known collections); indexed assignment installs no package-level singleton into a slot it then converts in place (R03.6).",
-    "C05": " Also: the verbs do not consult the reader's NR/FNR other than for messages (R05.10); a value the verb keeps in its own state enters a record only as a copy (R05.11); a function given both a handle and the decompression flag hands the handle back unwrapped only where every decompressing value of the flag is excluded (R05.12); the command line of a prepipe child contains a file name only through the quoting function (R05.13).",
+    "C05": " Also: the verbs do not consult the reader's NR/FNR other than for messages (R05.10); a value the verb keeps in its own state enters a record only as a copy (R05.11); a function given both a handle and the decompression flag hands the handle back unwrapped only where every decompressing value of the flag is excluded (R05.12); the command line of a prepipe child contains a file name only through the quoting function (R05.13). Further: the end blocks run after an unconditional State.Update in the end-of-stream branch (R05.14); a flag parser's store to the file-name lists appends to the field's present value (R05.15).",
     "C08": " Also: an evaluated value that is put into a map by the interpreter (map literals, emitf) is dominated by the absent test, as assignments are (R08.9b); math-class functions of two or three arguments that are not table dispatches return absent for an absent argument in any position (abstract kind evaluation, R08.4b); the right-hand side of a compound assignment is the operator node itself (R08.10b).",
     "C09": " Also: every sort call of the sort, top and sort-within-records verbs is a stable sort or a sort of plain strings (R09.9). Further: a slice that a DSL sorting function builds, sorts and returns is written on every turn of the loop that fills it (R09.11).",
     "C10": " Also: every sort call of the aggregating verbs is stable (R10.7); grouping keys joined through a helper or by hand in a buffer are covered by the injective-key rule (R10.6); ignoring the ok result of a selector is accepted only where every element is individually nil-tested (computed, not listed); every one-sided neighbour redirection in a doubly linked container (ordered map, record, recency list) is completed on every path (R10.8). Further: the element count handed to the key-writing helper is the same for every element of one key (R10.6c).",
     "C11": " Also: no selecting verb reads the reader's NR/FNR (R11.7).",
-    "C12": " Also: every path of a restructuring verb's record function emits, delegates or keeps the record — an emitting loop counts only where it is entered on the non-empty edge of a test of what it walks (R12.6); sorts are stable (R12.7); a run-time string spliced into a regular expression is QuoteMeta'd (R12.8).",
-    "C14": " Also: every control-flow cycle through the body of a while, do-while or triple-for executor passes through a read of the condition and through the update block (R14.11); a function that opens a frame set for a call returns a nil block-exit payload (R14.12); no cycle in the interpreter both steps along a map's entry list and executes a statement block or callback (R14.13).",
+    "C12": " Also: every path of a restructuring verb's record function emits, delegates or keeps the record — an emitting loop counts only where it is entered on the non-empty edge of a test of what it walks (R12.6); sorts are stable (R12.7); a run-time string spliced into a regular expression is QuoteMeta'd (R12.8). Further: an entry is not its own collision — an unlink of one of two looked-up entries is past a test that they differ (R12.10); a function that stores a.Next = b stores b.Prev = a and the other way round (R12.11).",
+    "C14": " Also: every control-flow cycle through the body of a while, do-while or triple-for executor passes through a read of the condition and through the update block (R14.11); a function that opens a frame set for a call returns a nil block-exit payload (R14.12); no cycle in the interpreter both steps along a map's entry list and executes a statement block or callback (R14.13). Further: indexed assignment stores a fresh empty collection into an array slot only past IsArrayOrMap() == false on that slot (R14.14).",
     "C16": " Also: the %1S … %9S table of strftime is read from the registered closures: width k and divisor 10^(9-k) (R16.6). Further: where a function takes the sign off a number and records it, every non-error result after the merge depends on the record (R16.7).",
-    "C17": " Also: a consumer holding a reader's record and error channels receives records only in a blocking select that also receives the error channel, and polls the error channel on the end-of-stream path (R17.16); the data result of ReadString/ReadBytes is used or known to be empty on every path to a return or the next read (R17.17); the ProcessState of every child command, input or output, is used (R17.13, without exceptions). Further: the error result of executing a statement block never flows into mlrval.FromError — a failed statement does not become data (R17.18).",
-    "C18": " Also: a path typestate over every verb parser, argument helper and flag parser establishes argc - i >= 1 before each args[i] (R18.10); no map update writes to a value that is nil on a merging edge (R18.11); a slice x[a:len(x)-b] with a,b >= 1 needs an established len(x) >= a+b, where HasPrefix and HasSuffix give the longer length, not the sum, and the text of a match of a constant regexp is at least its shortest match (R18.4d); a constant upper bound needs an established lower bound and a summed bound a test against the same sum (R18.4e); in the readers no path leads from a header/data length mismatch to the cell-by-cell header read of the same line (R18.4f); every use of state.Inrec as a record is dominated by a nil test (R18.13); a recursive walk over the AST reads a constant-index child only with the number of children established (R18.14). Further: no internal-coding assertion is made on the outcome of parsing text (R18.15).",
-    "C19": " Also: WrapOutputHandle has an explicit case for every decompressing encoding, and FindInputEncoding's file-name suffixes agree with the read path's (R19.9).",
-    "C20": " Also: every function that rewrites a link of the recency list maintains both end pointers (R20.9, found by type shape, not by name); split, like tee, never sends on the upstream done channel (R20.6), and every successful path of its record functions consults the pass-through option or appends (R20.10).",
+    "C17": " Also: a consumer holding a reader's record and error channels receives records only in a blocking select that also receives the error channel, and polls the error channel on the end-of-stream path (R17.16); the data result of ReadString/ReadBytes is used or known to be empty on every path to a return or the next read (R17.17); the ProcessState of every child command, input or output, is used (R17.13, without exceptions). Further: the error result of executing a statement block never flows into mlrval.FromError — a failed statement does not become data (R17.18). Further: the record that the CSV library returns together with an error is used only where the error is nil or the field-count error (R17.19); R17.8 knows the collect-then-report form of the end-of-stream close.",
+    "C18": " Also: a path typestate over every verb parser, argument helper and flag parser establishes argc - i >= 1 before each args[i] (R18.10); no map update writes to a value that is nil on a merging edge (R18.11); a slice x[a:len(x)-b] with a,b >= 1 needs an established len(x) >= a+b, where HasPrefix and HasSuffix give the longer length, not the sum, and the text of a match of a constant regexp is at least its shortest match (R18.4d); a constant upper bound needs an established lower bound and a summed bound a test against the same sum (R18.4e); in the readers no path leads from a header/data length mismatch to the cell-by-cell header read of the same line (R18.4f); every use of state.Inrec as a record is dominated by a nil test (R18.13); a recursive walk over the AST reads a constant-index child only with the number of children established (R18.14). Further: no internal-coding assertion is made on the outcome of parsing text (R18.15). Further: every separator handed to NewLineReader is a non-empty constant or an option that FinalizeReaderOptions refuses when empty (R18.16); an index made from a float64 has integer tests on both sides, or the float has passed the true side of an ordered comparison, and an upper integer test (R18.17); the self-recursive JSON token reader carries a depth compared with a constant (R18.18); no argument of a min that clamps an index is len of the indexed value (R18.19); in package cst a method call on what Mlrmap.Get returned is past a nil test (R18.20).",
+    "C19": " Also: WrapOutputHandle has an explicit case for every decompressing encoding, and FindInputEncoding's file-name suffixes agree with the read path's (R19.9). Further: no function of package climain stores to a package-level variable — in-place mode parses once per file (R19.10); the per-file loop is preceded by a loop that applies the refusal tests to every name (R19.11).",
+    "C20": " Also: every function that rewrites a link of the recency list maintains both end pointers (R20.9, found by type shape, not by name); split, like tee, never sends on the upstream done channel (R20.6), and every successful path of its record functions consults the pass-through option or appends (R20.10). Further: a loop that calls Close leaves only through its header (R20.11) — R20.4 alone had checked that the loop closes, not that it cannot be left early.",
 }
 
 NOT_APPLICABLE = {
